@@ -506,10 +506,53 @@ def check_cli_short(case, R=None):
         shutil.rmtree(tmpdir, ignore_errors=True)
 
 
+def _sig(F):
+    return (F.number_of_variables(), [tuple(cl) for cl in F.clauses()], list(F.all_variable_labels()))
+
+
+def check_then(case, R=None):
+    """G = T1(F); the caller goes on building F (a variable, a clause); then
+    H = T2(G).  H must be what T2(T1(.)) gives on an untouched copy of the
+    original formula: the result of a transformation stands on its own."""
+    out = []
+    t1, t2 = case['T1'], case['T2']
+    mk = lambda: scope.mk_cnf(case['nv'], [tuple(cl) for cl in case['cls']])
+
+    def run(spec, F):
+        T, k, c = spec
+        graph = None
+        if T in COMP:
+            n_ = F.number_of_variables()
+            graph = (n_, n_ + 1, [(u, w) for u in range(1, n_ + 1) for w in (u, u + 1)])
+        return transform(T, k, c, F, graph)
+    try:
+        want = _sig(run(t2, run(t1, mk())))
+        F = mk()
+        G = run(t1, F)
+        v = F.new_variable('late')
+        F.add_clause([v, -1] if case['nv'] else [v])
+        F.new_block(2, label='later_{}')
+        got = _sig(run(t2, G))
+    except Exception as e:
+        return [{'key': '%s-then-%s:exception:%s' % (t1[0], t2[0], type(e).__name__), 'what': repr(e),
+                 'case': dict(case)}]
+    if R is not None:
+        R.nt = True
+    if got != want:
+        out.append({'key': '%s-then-%s:depends-on-later-edits-of-the-input' % (t1[0], t2[0]),
+                    'what': 'T2(T1(F)) has %d variables / %d clauses / names %r...; after the caller added a variable, '
+                            'a clause and a block to F between the two steps: %d variables / %d clauses / names %r...'
+                            % (want[0], len(want[1]), want[2][:3], got[0], len(got[1]), got[2][:3]),
+                    'case': dict(case)})
+    return out
+
+
 def check_case(case, R=None):
     """Violations of one (F, transformation, parameters) instance."""
     if case.get('kind') == 'cli-short':
         return check_cli_short(case, R)
+    if case.get('kind') == 'then':
+        return check_then(case, R)
     kind = case.get('kind', 'lib')
     T = case['T']
     k = case.get('k')
@@ -778,6 +821,26 @@ def plan(tier, seed):
                 for sd in (1, 2):
                     jobs.append(('X', {'kind': 'cli-short', 'T': T, 'nv': nv, 'cls': cl, 'M': M, 'd': d,
                                        'seed': sd, 'k': None, 'c': None}))
+    # ---- the input keeps being built on between two transformations ---------
+    firsts = [('flip', None, None), ('xor', 2, None), ('or', 2, None), ('maj', 3, None), ('eq', 2, None),
+              ('one', 2, None), ('exact', 2, 1), ('ite', None, None), ('lift', 2, None), ('xorcomp', None, None),
+              ('majcomp', None, None)]
+    seconds = [('xor', 2, None), ('ite', None, None), ('lift', 2, None), ('flip', None, None), ('or', 2, None),
+               ('xorcomp', None, None)]
+    for nv, cl in [(2, [[1, -2], [2]]), (3, [[1, 2], [-1, -3], [3]]), (0, [[]])]:
+        for t1 in firsts:
+            for t2 in seconds:
+                jobs.append(('X', {'kind': 'then', 'T': t1[0], 'T1': list(t1), 'T2': list(t2), 'nv': nv, 'cls': cl,
+                                   'k': None, 'c': None}))
+    # ---- gadgets over 16..18 new variables (more than a 16-bit mask holds) ---
+    for k in ((16, 17, 18) if thorough else (17,)):
+        for cl in ([[1]], [[-1]]):
+            jobs.append(('X', {'T': 'xor', 'k': k, 'c': None, 'nv': 1, 'cls': cl}))
+            jobs.append(('X', {'T': 'xorcomp', 'k': None, 'c': None, 'nv': 1, 'cls': cl,
+                               'graph': [1, k, [[1, w] for w in range(1, k + 1)]]}))
+        jobs.append(('X', {'T': 'maj', 'k': k, 'c': None, 'nv': 1, 'cls': [[1]]}))
+        jobs.append(('X', {'T': 'eq', 'k': k, 'c': None, 'nv': 1, 'cls': [[-1]]}))
+        jobs.append(('X', {'T': 'or', 'k': k, 'c': None, 'nv': 1, 'cls': [[-1]]}))
     # ---- VERIF_SEED rotates a few extra mid-size instances ------------------
     rng = _random.Random(1000003 * (seed + 1))
     cat = [(nv, cls) for nv, cls in scope.small_cnf_catalogue() if nv >= 3]
